@@ -176,7 +176,8 @@ structure ShutdownDone (cfg : Cfg) (s : State) : Prop where
     (2) when none of them is enabled any more, nothing of any thread is under way and every file holds
     exactly the records whose size update completed: no step of the sequence (in particular
     flush_shmem_list) can have been skipped. -/
-theorem c04_recorder_loop_exits (h : Reachable cfg nw s) (hstop : ∀ t, Crash.stopped s t = true)
+theorem c04_recorder_loop_exits (h : Reachable cfg nw s)
+    (hstop : ∀ t, (s.prod t).started = true → Crash.stopped s t = true)
     (hdone : s.bufDone = true) :
     (∀ acts s', (∀ a ∈ acts, isShutdownAct a = true) → run cfg s acts = some s' → acts.length ≤ mu s) ∧
     (ShutdownDone cfg s → ∀ t, Drained s t ∧ clean (s.file t) = survivors (s.prod t).log) := by
